@@ -299,8 +299,9 @@ struct TlsObj {
     created: std::cell::Cell<usize>,
 }
 
-pub const C20_CASES: [&str; 12] = [
+pub const C20_CASES: [&str; 14] = [
     "cs", "nested-cs", "new-drop", "drop-captured", "cell-ops", "upgrade", "flush", "reactivate", "reactivate_after", "chain-drop", "defer-many", "cs-then-new-in-guard",
+    "nested-reactivate", "body-nested-reactivate",
 ];
 
 impl Drop for TlsObj {
@@ -398,6 +399,29 @@ impl Drop for TlsObj {
                     drop(r);
                 }
             }
+            12 => {
+                // reactivation of one of two nested guards, then garbage that must be handed over
+                let g1 = circ::cs();
+                let mut g2 = circ::cs();
+                g2.reactivate();
+                let v = g2.reactivate_after(|| 5);
+                assert_eq!(v, 5);
+                drop(g1);
+                g2.reactivate();
+                drop(g2);
+                for _ in 0..10 {
+                    let r = tnode();
+                    created += 1;
+                    drop(r);
+                }
+            }
+            13 => {
+                for _ in 0..10 {
+                    let r = tnode();
+                    created += 1;
+                    drop(r);
+                }
+            }
             _ => {
                 let g = circ::cs();
                 let r = tnode();
@@ -465,6 +489,20 @@ pub fn c20_child(case: u32, order: u32, threads: usize, main_exit: bool) {
                     TLS_A.with(|t| *t.borrow_mut() = Some(TlsObj { case, sh: sh2.clone(), held: RefCell::new(None), created: std::cell::Cell::new(0) }));
                     let o = mk(&sh2);
                     TLS_B.with(|t| *t.borrow_mut() = Some(o));
+                }
+            }
+            if case == 13 && order != 2 {
+                // the thread body reactivates nested guards, then leaves garbage behind
+                let g1 = circ::cs();
+                let mut g2 = circ::cs();
+                g2.reactivate();
+                let _ = g2.reactivate_after(|| 1);
+                drop(g1);
+                drop(g2);
+                for _ in 0..10 {
+                    let r = tnode();
+                    CREATED.fetch_add(1, SeqCst);
+                    drop(r);
                 }
             }
             // some ordinary work
